@@ -170,6 +170,30 @@ CHECKS['C11'] = dict(
         'Coq kernel; translator; extraction; gcc.',
    technique='Coq proof (reflection over the finite relay family for coverage, lifted to all payloads by the codec round trip; binary-search invariant), differential correspondence against the real handshake through a relay, delivery oracle',
    design='4/C11')
+CHECKS['C03'] = dict(
+   text='Coq theorems over the server model for every state, event and oracle (login, zlib unconstrained): a session becomes authenticated only by a login '
+        'request naming it whose 16 response bytes equal login(password, the seed currently stored in that slot), from the slot\'s source, within its lifetime; '
+        'raw authentication only by a raw login frame with login(seed+1) on an already authenticated slot; a version request that (re)claims a slot clears '
+        'authentication, raw authentication, the options lock and draws a fresh seed; every privileged effect (tun write, option/codec/fragsize change, switch to '
+        'raw, disclosure of the server address by the I command, any state change caused by a DNS or raw event) implies an authenticated, live, source-checked slot; '
+        'refused commands leave the state unchanged and produce exactly the refusal reply; trace theorems: an authenticated slot in any reachable state has a login '
+        'event after its last allocation, and a replayed response only works if it equals the response for the current seed. Tied to iodined.c by per-event '
+        'correspondence on server histories plus a monitor that re-derives "who was allowed to do this" from the inputs as the C reads them.',
+   note='Trusts: login() as an uninterpreted oracle (C19 covers what it computes); the public A record for ns.<domain> carries the same address as the I reply '
+        '(scope note, example in the property file); Coq kernel; translator; extraction; gcc.',
+   technique='Coq proof (exact refusal/effect classification of every handler, per-step slot-change classification, trace induction with ghost "since"), differential correspondence, implementation-level monitor',
+   design='4/C03')
+CHECKS['C04'] = dict(
+   text='Coq theorems over the server model: with source checking on, a request naming a session from another address or family is refused with the state unchanged; '
+        'a slot\'s bound address changes only by allocation or a correct raw login; a tun packet (and a client-to-client forward) goes to exactly the least live, '
+        'authenticated, enabled slot owning the destination address, unique on every reachable table (link to the C18 pool theorems), and changes no other slot; '
+        'a slot is (re)allocated only when inactive or silent for more than the timeout and no lower slot is available, leaving all other slots untouched; '
+        'requests to an expired session are refused; boundary behaviour at exactly 60 s stated. Tied to iodined.c/user.c by per-event correspondence on server '
+        'histories and a monitor tracking address bindings, expiry and routing.',
+   note='Trusts: after a raw-login rebind a query still held from the previous address is answered to that address (same session; the monitor accepts every '
+        'address a slot was bound to since its allocation); Coq kernel; translator; extraction; gcc.',
+   technique='Coq proof (frame lemmas per handler, uniqueness of the routing target from the C18 pool invariant, allocation characterisation), differential correspondence, implementation-level monitor',
+   design='4/C04')
 NOT_YET = {}
 
 def main():
